@@ -13,7 +13,7 @@ use zlib_rs::verif_cpu as cpu;
 pub const INFO: CheckInfo = CheckInfo {
     prop: "C10",
     level: "model_checking",
-    rule: "twin executions over the shared (configuration x input x schedule) families and over decoder corpus streams: the reference execution (all CPU features, zeroed allocations, zeroed output buffers, end-aligned buffers) is compared call by call with (i) every CPU-feature mask {-avx2, -avx2-sse, -pclmulqdq, everything off} via hook H1, (ii) allocator garbage {0xFF, 0xA5}, output-buffer garbage {0xFF, 0x5A} and a stream reused after reset that first processed a DIFFERENT history, (iii) buffer misalignment 1, 3, 17, 31, 63 bytes; (iv) threads: a controlled scheduler (E2) runs 2-3 real threads, each driving its own stream (deflate / inflate / checksums), one runnable at a time, with scheduling points at every API call boundary and at every CPU-feature probe inside the library (H1 probe hook; the cached AVX2 detection is reset before each execution) and enumerates ALL schedules with at most 2 (3) preemptions by iterative-preemption-bounding DFS; every thread's outputs, statuses and counters must equal those of the same call list run alone. States = (thread, step) scheduler states, transitions = scheduling decisions; distinct_nontrivial = distinct twin/schedule outcomes (must collapse to the solo outcomes).",
+    rule: "twin executions over the shared (configuration x input x schedule) families and over decoder corpus streams: the reference execution (all CPU features, zeroed allocations, zeroed output buffers, end-aligned buffers) is compared call by call with (i) every CPU-feature mask {-avx2, -avx2-sse, -pclmulqdq, everything off} via hook H1, (ii) allocator garbage {0xFF, 0xA5}, output-buffer garbage {0xFF, 0x5A} and a stream reused after reset that first processed a DIFFERENT history (compressor: two histories, same payload; decoder: 30 earlier histories, then every short corpus stream incl. invalid ones whose back-references reach before the start of the new stream, compared with a fresh decoder), (iii) buffer misalignment 1, 3, 17, 31, 63 bytes; (iv) threads: a controlled scheduler (E2) runs 2-3 real threads, each driving its own stream (deflate / inflate / checksums), one runnable at a time, with scheduling points at every API call boundary and at every CPU-feature probe inside the library (H1 probe hook; the cached AVX2 detection is reset before each execution) and enumerates ALL schedules with at most 2 (3) preemptions by iterative-preemption-bounding DFS; every thread's outputs, statuses and counters must equal those of the same call list run alone. States = (thread, step) scheduler states, transitions = scheduling decisions; distinct_nontrivial = distinct twin/schedule outcomes (must collapse to the solo outcomes).",
     assumptions: &["the scheduler is sequentially consistent and cooperative: data races on plain memory that do not change results under some serialisation at the instrumented points are not visible (no race detector pass is run here)", "CPU variants that need another target (NEON, LSX, wasm) or a different build (AVX-512) are not covered by the run-time mask", "sandboxed x86-64 only"],
     bound_quick: "twins: tiny (every 3rd) + shape (stride 9) families, 4 masks, 4 garbage settings, 5 misalignments; threads: 6 thread-program sets, preemption bound 2",
     bound_thorough: "twins on all families; threads: preemption bound 3",
@@ -221,51 +221,62 @@ fn explore_threads(c: &mut Case, progs: &[Prog], d: &Arc<ThreadData>, bound: usi
     // solo reference: each program alone, no scheduler
     let env = MEnv::new();
     let solo: Vec<Vec<u64>> = progs.iter().map(|p| run_prog(*p, d, &env, &|| {})).collect();
-    let mut stack: Vec<Vec<usize>> = vec![vec![]];
+    // iterative context bounding without repetition: prefixes are queued by the number of preemptions they contain,
+    // and every schedule with k preemptions is run before any with k+1, so a cap leaves a completed bound behind
+    let mut buckets: Vec<Vec<Vec<usize>>> = vec![vec![]; bound + 1];
+    buckets[0].push(vec![]);
     let mut schedules = 0usize;
-    while let Some(prefix) = stack.pop() {
-        let x = run_schedule(progs, &prefix, d);
-        schedules += 1;
-        c.exec();
-        if x.diverged {
-            return Err(format!("MACHINERY: replaying schedule prefix {prefix:?} diverged (uncontrolled nondeterminism)"));
-        }
-        for (t, o) in x.obs.iter().enumerate() {
-            if *o != solo[t] {
-                let k = o.iter().zip(&solo[t]).position(|(a, b)| a != b).unwrap_or(o.len().min(solo[t].len()));
-                let choices: Vec<usize> = x.points.iter().map(|p| p.enabled[p.chosen_idx]).collect();
-                return Err(format!("thread {t} ({:?}) observed a different result (first difference at observation {k}) than when run alone; schedule (thread chosen at each point): {choices:?}", progs[t]));
+    let mut completed: i64 = -1;
+    let mut capped = false;
+    'levels: for level in 0..=bound {
+        while let Some(prefix) = buckets[level].pop() {
+            let x = run_schedule(progs, &prefix, d);
+            schedules += 1;
+            c.exec();
+            if x.diverged {
+                return Err(format!("MACHINERY: replaying schedule prefix {prefix:?} diverged (uncontrolled nondeterminism)"));
             }
-        }
-        c.outcome(hash_u32s(&x.points.iter().map(|p| p.enabled[p.chosen_idx] as u32).collect::<Vec<_>>()));
-        let mut pre = 0usize;
-        let mut prev_state: Option<u64> = None;
-        for (i, p) in x.points.iter().enumerate() {
-            let sh = hash_u32s(&[p.running as u32, p.running_enabled as u32, p.enabled.len() as u32, i.min(40) as u32]);
-            c.state(sh);
-            if let Some(ps) = prev_state {
-                c.trans(ps, sh);
-            }
-            prev_state = Some(sh);
-            if i >= prefix.len() {
-                let cost = pre + if p.running_enabled { 1 } else { 0 };
-                if cost <= bound {
-                    for alt in 1..p.enabled.len() {
-                        let mut np: Vec<usize> = x.points[..i].iter().map(|q| q.chosen_idx).collect();
-                        np.push(alt);
-                        stack.push(np);
-                    }
+            for (t, o) in x.obs.iter().enumerate() {
+                if *o != solo[t] {
+                    let k = o.iter().zip(&solo[t]).position(|(a, b)| a != b).unwrap_or(o.len().min(solo[t].len()));
+                    let choices: Vec<usize> = x.points.iter().map(|p| p.enabled[p.chosen_idx]).collect();
+                    return Err(format!("thread {t} ({:?}) observed a different result (first difference at observation {k}) than when run alone; schedule (thread chosen at each point): {choices:?}", progs[t]));
                 }
             }
-            if p.running_enabled && p.chosen_idx != 0 {
-                pre += 1;
+            c.outcome(hash_u32s(&x.points.iter().map(|p| p.enabled[p.chosen_idx] as u32).collect::<Vec<_>>()));
+            let mut pre = 0usize;
+            let mut prev_state: Option<u64> = None;
+            for (i, p) in x.points.iter().enumerate() {
+                let sh = hash_u32s(&[p.running as u32, p.running_enabled as u32, p.enabled.len() as u32, i.min(40) as u32]);
+                c.state(sh);
+                if let Some(ps) = prev_state {
+                    c.trans(ps, sh);
+                }
+                prev_state = Some(sh);
+                if i >= prefix.len() {
+                    let cost = pre + if p.running_enabled { 1 } else { 0 };
+                    if cost <= bound {
+                        for alt in 1..p.enabled.len() {
+                            let mut np: Vec<usize> = x.points[..i].iter().map(|q| q.chosen_idx).collect();
+                            np.push(alt);
+                            buckets[cost].push(np);
+                        }
+                    }
+                }
+                if p.running_enabled && p.chosen_idx != 0 {
+                    pre += 1;
+                }
+            }
+            if schedules >= cap {
+                c.count("thread_schedule_cap_hit", 1);
+                capped = true;
+                break 'levels;
             }
         }
-        if schedules >= cap {
-            c.count("thread_schedule_cap_hit", 1);
-            break;
-        }
+        completed = level as i64;
     }
+    let _ = capped;
+    c.count(if completed >= 2 { "thread_sets_complete_at_2_or_more_preemptions" } else if completed == 1 { "thread_sets_complete_at_1_preemption" } else { "thread_sets_complete_at_0_preemptions" }, 1);
     c.count("thread_schedules_explored", schedules as u64);
     // determinism of the harness: the default schedule twice
     let a = run_schedule(progs, &[], d);
@@ -455,6 +466,8 @@ pub fn run(ctx: &mut Ctx) {
             }
         }
     }
+    // the decoder side of the same: a decoder reset after different histories, then every corpus probe
+    crate::checks::c14::inflate_reset_probes(ctx, &menv, "inflate-reset-different-history");
     // threads (E2)
     let denv = Env::new();
     let mut plain = text(3, 500);
